@@ -288,7 +288,7 @@ def make_ma_env(num_envs, L, continuous):
     return env
 
 
-def make_bandit_env(seed):
+def make_bandit_env(seed, cast32=False):
     import pandas as pd
     from agilerl.wrappers.learning import BanditEnv
     rs = np.random.RandomState(seed)
@@ -296,13 +296,16 @@ def make_bandit_env(seed):
     targs = pd.DataFrame(np.arange(12) % 3)
 
     class CountingBandit(BanditEnv):
+        """BanditEnv builds its contexts with np.zeros (float64); cast32 = the same contexts as float32"""
         def step(self, k):
             REC.on_env_step(1)
-            return super().step(k)
+            ctx, r = super().step(k)
+            return (ctx.astype(np.float32), np.float32(r)) if cast32 else (ctx, r)
 
         def reset(self):
             REC.on_env_reset()
-            return super().reset()
+            ctx = super().reset()
+            return ctx.astype(np.float32) if cast32 else ctx
 
     return CountingBandit(feats, targs)
 
@@ -459,7 +462,7 @@ def run(cfg):
             osp = env.single_observation_space if ne else env.observation_space
             asp = env.single_action_space if ne else env.action_space
         elif loop == "bandit":
-            env = make_bandit_env(cfg["seed"])
+            env = make_bandit_env(cfg["seed"], cast32=cfg.get("bandit_env") == "float32")
             osp = spaces.Box(0.0, 1.0, env.context_dim, dtype=np.float32)
             asp = spaces.Discrete(env.arms)
         else:
@@ -507,7 +510,7 @@ def run(cfg):
         rec.pop = pop
         for a in pop:
             rec.know(a)
-        rec.ev.append({"op": "init", "k": len(pop), "rule": RULE[loop], "max_steps": cfg["max_steps"], "elitism": bool(cfg["evo"] and cfg["elitism"]),
+        rec.ev.append({"op": "init", "k": len(pop), "rule": RULE[loop], "max_steps": cfg["max_steps"], "evo": bool(cfg["evo"]), "elitism": bool(cfg["evo"] and cfg["elitism"]),
                        "mutate_elite": bool(cfg["mutate_elite"]), "target": cfg["target"] is not None,
                        "steps": [int(a.steps[-1]) for a in pop], "idxs": [int(a.index) for a in pop], "fitlen": [len(a.fitness) for a in pop]})
         common = dict(max_steps=cfg["max_steps"], evo_steps=cfg["evo_steps"], eval_steps=cfg["eval_steps"], eval_loop=cfg["eval_loop"],
